@@ -60,6 +60,11 @@ def getattr_(I, st, ov, attr, ctx):
         r = builtins_lib.module_attr(I, ov, attr, ctx)
         if r is not None:
             return [(st, r)]
+    if isinstance(ov, Sym) and I.sym_fields and attr in I.sym_fields:
+        F = sym_field(I, st, attr)
+        t = z3.Select(F, ov.t)
+        I.U.well_typed(t)
+        return [(st, Sym(t))]
     if isinstance(ov, (Sym, Conc, TupV, BoolV)):
         h = I.lib.get("$getattr_value")
         if h is not None:
@@ -121,7 +126,20 @@ def cls_getattr(I, st, cv, attr, ctx):
     return [(st, FuncV("builtin", name="%s.%s" % (name, attr), self=None))]
 
 
+def sym_field(I, st, attr):
+    """Boogie-style field map of attribute `attr` over *symbolic* objects (objects that are not
+    named inputs of the contract): one Array(V, V) per attribute, threaded through the state."""
+    key = "F_" + attr
+    if key not in st.ghost:
+        st.ghost[key] = z3.Const("F0_%s" % attr, z3.ArraySort(V, V))
+    return st.ghost[key]
+
+
 def setattr_(I, st, ov, attr, v, ctx):
+    if isinstance(ov, Sym) and I.sym_fields and attr in I.sym_fields:
+        F = sym_field(I, st, attr)
+        st.ghost["F_" + attr] = z3.Store(F, ov.t, I.term(v))
+        return [(st, Conc(None))]
     if isinstance(ov, Ref):
         h = st.heap[ov.oid]
         if h.kind == "obj":
